@@ -14,7 +14,7 @@ STATUS = {
  "C03": ("every_position_checked (mutual), elif_was_skipped witness, reassign_immutable_rejected / reassign_mutable_accepted / fresh_name_accepted, old_checker_missed_nested, omitted_variant_reported, complete_match_accepted (Props/C03, Sem/Checker)", "single edits at every expression position / statement list of corpus + repository programs; scope depth grid; random matches", "each edit must be rejected with a diagnostic on the edited lines; documented mutability rule; coverage of match arms"),
  "C04": ("floorDiv/mod = Int.fdiv/fmod for all Int64 pairs, core=std, identity, zero divisor, no other failure", "10 streams: both integer kernels, 4 operand-type pairs of py_div/py_mod/py_floor_div, f64 wrappers", "Python `//`, `%`, `/`"),
  "C05": ("slice/index/range = CPython for all i64 (saturating step), str=list copy", "9 streams incl. both copies, range with cap, dict_get", "CPython `s[a:b:c]`, `range`; slice syntax on the real parser"),
- "C06": ("const_value_sound, index_error_agrees, runtime_index_error_reported, slice_step_zero_agrees, static_fold_sound, ok_implies_no_repeat, cycle_is_rejected, never_out_of_fuel, resolution_terminates (Props/C06, Sem/ConstEval)", "checker on `const K = E` (verdict, type, const_values); same expression in a compiled function body; compiled consts; dependency graphs", "Python evaluates the expression; const type = body type; independent cycle DFS"),
+ "C06": ("const_value_sound, const_type_sound (binConst_type), index_error_agrees, runtime_index_error_reported, slice_step_zero_agrees, static_fold_sound, ok_implies_no_repeat, cycle_is_rejected, never_out_of_fuel, resolution_terminates (Props/C06, Sem/ConstEval)", "checker on `const K = E` (verdict, type, const_values); same expression in a compiled function body; compiled consts; dependency graphs", "Python evaluates the expression; const type = body type; independent cycle DFS"),
  "C07": ("phases_agree by structural induction; policy table by cases", "policy table (exhaustive), checker/IR/plan types, let/return/argument/compound verdicts", "documented table"),
  "C08": ("roundtrip over the expression ladder (WL derivations), fmt injective", "parse, fmt, round trip (incl. rejections)", "AST equality on corpus + generators"),
  "C09": ("fmt idempotent on the ladder; CLI decision logic; runFiles read-only", "CLI single file + directory", "idempotence, check consistency, hygiene"),
@@ -28,7 +28,7 @@ STATUS = {
  "C17": ("construction_validated_partial, rejected_argument_stops, own_methods_exempt, other_methods_checked, select_sound / select_from_underlying / select_single, nominal, alias_bypasses witness (Props/C17, Sem/Newtype)", "compiled programs: 11 declaration shapes × 19 sites × values; 6 underlying types", "hook enforced outside own methods; mixing newtypes rejected"),
  "C18": ("converges for all interleavings (ticket protocol); 3 counter-examples for the old protocol", "event-log replay", "hover = latest after quiescence"),
  "C19": ("roundtrip, strict_mono, counting, range_wellformed, terminal line; column partial", "5 streams, exhaustive small documents", "counting in Python"),
- "C20": ("roundtrip (mutual, any depth), json_field_names, type_mapping, eq_iff_structural, eq_fields, ord_lexicographic, cmpInt/cmpStr swap, hash_respects_eq, derives_closed, derives_kept (Props/C20, Sem/Derive)", "compiled programs: json_stringify + from_json, six comparison operators, Dict keys, clone; emitted #[derive] list for subsets", "Python json / tuple order; rustc supertrait closure"),
+ "C20": ("roundtrip (mutual, any depth), json_field_names, type_mapping, eq_iff_structural, eq_fields, ord_lexicographic, cmpV_swap (mutual, any depth), lt_iff_gt, cmpV_refl_of_eq, hash_respects_eq, derives_closed, derives_kept (Props/C20, Sem/Derive)", "compiled programs: json_stringify + from_json, six comparison operators, Dict keys, clone; emitted #[derive] list for subsets", "Python json / tuple order; rustc supertrait closure"),
 }
 
 
